@@ -173,7 +173,13 @@ def _hashable(v):
     return v
 
 
+_FLATSEQ = re.compile(r"^<<[-0-9, ]*>>$")
+
+
 def parse_tla(text):
+    if _FLATSEQ.match(text):
+        body = text[2:-2].strip()
+        return [int(x) for x in body.split(",")] if body else []
     p = _P(text)
     v = p.value()
     p.ws()
@@ -289,6 +295,7 @@ def tlc(workdir, module, cfg, *, workers=None, dump=None, simulate=None, depth=N
     if coverage:
         cmd += ["-coverage", "1"]
     if dump:
+        os.makedirs(os.path.dirname(dump), exist_ok=True)
         cmd += ["-dump", dump]
     if simulate:
         cmd += ["-simulate", simulate]
